@@ -74,9 +74,33 @@ def _flatten(g, enc):
     return f"{t}({','.join(sigs)})", paths
 
 
-REAL = {"4326": lambda x, y: (10 + x / 1000, 50 + y / 1000), "3857": lambda x, y: (1113194 + 10 * x, 6446275 + 10 * y),
+REAL = {"4258": lambda x, y: (10 + x / 1000, 50 + y / 1000), "4326": lambda x, y: (10 + x / 1000, 50 + y / 1000), "3857": lambda x, y: (1113194 + 10 * x, 6446275 + 10 * y),
         "32633": lambda x, y: (300000 + 10 * x, 5540000 + 10 * y), "3035": lambda x, y: (4200000 + 10 * x, 3000000 + 10 * y),
         "6933": lambda x, y: (964862 + 10 * x, 5300000 + 10 * y)}
+
+
+def _long_summary(inp, out):
+    """measurements of one densified path (exact integers on the lattice): vertex count, largest squared gap, and whether the output walks the
+    input path: starts / ends at its ends, every vertex on the current edge, never going backwards"""
+    n, gap2 = len(out), 0
+    ok = bool(out) and out[0] == inp[0] and out[-1] == inp[-1]
+    k = 0                                                   # current edge inp[k] -> inp[k + 1]
+    for i in range(1, n):
+        (x0, y0), (x1, y1) = out[i - 1], out[i]
+        gap2 = max(gap2, (x1 - x0) ** 2 + (y1 - y0) ** 2)
+        while ok:
+            a, b = inp[k], inp[k + 1]
+            ex, ey = b[0] - a[0], b[1] - a[1]
+            t0, t1 = (x0 - a[0]) * ex + (y0 - a[1]) * ey, (x1 - a[0]) * ex + (y1 - a[1]) * ey
+            on = (x1 - a[0]) * ey - (y1 - a[1]) * ex == 0 and 0 <= t1 <= ex * ex + ey * ey and (x0 - a[0]) * ey - (y0 - a[1]) * ex == 0 and t0 < t1
+            if on:
+                break
+            if [x0, y0] == b and k + 2 < len(inp):
+                k += 1
+                continue
+            ok = False
+    lens = [math.isqrt((b[0] - a[0]) ** 2 + (b[1] - a[1]) ** 2) // S for a, b in zip(inp, inp[1:])]
+    return {"n": n, "maxgap2": min(gap2, 2**30), "on_path_in_order": bool(ok), "lens": lens}
 
 
 def execute(c):
@@ -135,6 +159,13 @@ def execute(c):
         ev["sig_in"], ev["inp"] = _flatten(shp, enc)
         crs = None if op == "to_crs_no_crs" else CRS_A
         g = Geometry(shp, crs)
+        if op == "segmented_long":
+            out = g.segmented(float(c["r"]))
+            ev["type_area_length_ok"] = bool(out.geom.geom_type == shp.geom_type and abs(out.geom.area - shp.area) <= 1e-9 * max(1.0, shp.area)
+                                             and abs(out.geom.length - shp.length) <= 1e-9 * max(1.0, shp.length))
+            ev["sig_out"], outs = _flatten(out.geom, enc)
+            ev["long"] = [_long_summary(a, b) for a, b in zip(ev["inp"], outs)] if len(outs) == len(ev["inp"]) else []
+            return ev
         if op == "segmented":
             out = g.segmented(float(c["r"]))
             ev["type_area_length_ok"] = bool(out.geom.geom_type == shp.geom_type and abs(out.geom.area - shp.area) <= 1e-9 * max(1.0, shp.area)
